@@ -1,6 +1,1036 @@
-//! C10 — not built yet.
+//! C10 — authoritative answers follow the RFC 1034 §4.3.2 algorithm.
+//!
+//! Case line:  `q <mode> <origin> <zone> <qname> <qtype> <do>`
+//!   mode   `u` unsigned zone · `n` signed, NSEC · `3` signed, NSEC3
+//!   zone   RRsets in store (BTreeMap) order joined by `;`, each `owner/TYPE/rd+rd…`,
+//!          rd = `<tag>` or `<tag>@<target-name>`
+//!   names  ASCII labels joined by `.` with a trailing dot (`.` is the root)
+//! Implementation: real `InMemoryZoneHandler` (records inserted with `upsert_mut`) inside a
+//! `Catalog`; the query is built as wire bytes → `Request::from_bytes` → `Catalog::handle_request`
+//! → response bytes captured by a `ResponseHandler` → decoded → canonical summary
+//!   `<RCODE> aa=<0|1> an=<rrsets> ns=<rrsets> ar=<rrsets>`.
+//! Oracle: `reference()` below — RFC 1034 §4.3.2 + RFC 4592 written from the RFC text.
+use std::collections::{BTreeMap, BTreeSet};
+use std::net::SocketAddr;
+use std::sync::{Arc, Mutex};
+
+use hickory_net::runtime::{TokioRuntimeProvider, TokioTime};
+use hickory_net::xfer::Protocol;
+use hickory_net::NetError;
+use hickory_proto::dnssec::rdata::{DNSSECRData, DNSKEY, DS};
+use hickory_proto::dnssec::{crypto::Ed25519SigningKey, Algorithm, DigestType, DnssecSigner, SigningKey};
+use hickory_proto::op::{Edns, Message, Query};
+use hickory_proto::rr::rdata::{A, AAAA, CNAME, MX, NS, SOA, TXT};
+use hickory_proto::rr::{LowerName, Name, RData, Record, RecordType};
+use hickory_proto::serialize::binary::{BinDecodable, BinDecoder, BinEncoder};
+use hickory_server::dnssec::NxProofKind;
+use hickory_server::server::{Request, RequestHandler, ResponseHandler, ResponseInfo};
+use hickory_server::store::in_memory::InMemoryZoneHandler;
+use hickory_server::zone_handler::{AxfrPolicy, Catalog, MessageResponse, ZoneHandler, ZoneType};
+
 use crate::common::*;
 
-pub fn run(_o: &Opts, rec: &mut Recorder) {
-    rec.rule = "stub".into();
+// ------------------------------------------------------------------------------------------
+// abstract zone representation shared with the Lean side
+// ------------------------------------------------------------------------------------------
+
+pub type LName = Vec<String>; // lower-case labels, first label first
+
+pub const T_A: u16 = 1;
+pub const T_NS: u16 = 2;
+pub const T_CNAME: u16 = 5;
+pub const T_SOA: u16 = 6;
+pub const T_MX: u16 = 15;
+pub const T_TXT: u16 = 16;
+pub const T_AAAA: u16 = 28;
+pub const T_DS: u16 = 43;
+pub const T_RRSIG: u16 = 46;
+pub const T_NSEC: u16 = 47;
+pub const T_DNSKEY: u16 = 48;
+pub const T_NSEC3: u16 = 50;
+pub const T_ANY: u16 = 255;
+
+pub const QTYPES: [u16; 9] = [T_A, T_AAAA, T_MX, T_NS, T_CNAME, T_SOA, T_DS, T_TXT, T_ANY];
+
+fn ty_name(t: u16) -> String {
+    match t {
+        T_A => "A".into(),
+        T_NS => "NS".into(),
+        T_CNAME => "CNAME".into(),
+        T_SOA => "SOA".into(),
+        T_MX => "MX".into(),
+        T_TXT => "TXT".into(),
+        T_AAAA => "AAAA".into(),
+        T_DS => "DS".into(),
+        T_RRSIG => "RRSIG".into(),
+        T_NSEC => "NSEC".into(),
+        T_DNSKEY => "DNSKEY".into(),
+        T_NSEC3 => "NSEC3".into(),
+        T_ANY => "ANY".into(),
+        n => format!("TYPE{n}"),
+    }
+}
+
+fn ty_parse(s: &str) -> Option<u16> {
+    Some(match s {
+        "A" => T_A,
+        "NS" => T_NS,
+        "CNAME" => T_CNAME,
+        "SOA" => T_SOA,
+        "MX" => T_MX,
+        "TXT" => T_TXT,
+        "AAAA" => T_AAAA,
+        "DS" => T_DS,
+        "ANY" => T_ANY,
+        _ => return None,
+    })
+}
+
+#[derive(Clone, Debug, PartialEq, Eq, PartialOrd, Ord, Hash)]
+pub struct Rd {
+    pub tag: u32,
+    pub target: Option<LName>,
+}
+
+#[derive(Clone, Debug, PartialEq, Eq, PartialOrd, Ord, Hash)]
+pub struct Rs {
+    pub name: LName,
+    pub ty: u16,
+    pub rds: Vec<Rd>,
+}
+
+pub fn name_txt(n: &LName) -> String {
+    if n.is_empty() {
+        ".".into()
+    } else {
+        let mut s = n.join(".");
+        s.push('.');
+        s
+    }
+}
+
+fn label_ok(l: &str) -> bool {
+    !l.is_empty() && l.len() <= 63 && l.bytes().all(|c| c.is_ascii_alphanumeric() || c == b'*' || c == b'_' || c == b'-')
+}
+
+/// parses a name token, keeping the letter case
+pub fn name_parse_case(s: &str) -> Option<LName> {
+    if s == "." {
+        return Some(vec![]);
+    }
+    let s = s.strip_suffix('.')?;
+    let v: Vec<String> = s.split('.').map(String::from).collect();
+    if v.iter().all(|l| label_ok(l)) && v.iter().map(|l| l.len() + 1).sum::<usize>() < 255 {
+        Some(v)
+    } else {
+        None
+    }
+}
+
+pub fn lower(n: &LName) -> LName {
+    n.iter().map(|l| l.to_ascii_lowercase()).collect()
+}
+
+pub fn name_parse(s: &str) -> Option<LName> {
+    let n = name_parse_case(s)?;
+    if n == lower(&n) { Some(n) } else { None }
+}
+
+fn rd_txt(r: &Rd) -> String {
+    match &r.target {
+        Some(t) => format!("{}@{}", r.tag, name_txt(t)),
+        None => format!("{}", r.tag),
+    }
+}
+
+fn rs_txt(r: &Rs) -> String {
+    format!("{}/{}/{}", name_txt(&r.name), ty_name(r.ty), r.rds.iter().map(rd_txt).collect::<Vec<_>>().join("+"))
+}
+
+pub fn zone_txt(z: &[Rs]) -> String {
+    if z.is_empty() { "-".into() } else { z.iter().map(rs_txt).collect::<Vec<_>>().join(";") }
+}
+
+fn rd_parse(s: &str) -> Option<Rd> {
+    match s.split_once('@') {
+        Some((t, n)) => Some(Rd { tag: t.parse().ok()?, target: Some(name_parse(n)?) }),
+        None => Some(Rd { tag: s.parse().ok()?, target: None }),
+    }
+}
+
+fn rs_parse(s: &str) -> Option<Rs> {
+    let mut it = s.split('/');
+    let name = name_parse(it.next()?)?;
+    let ty = ty_parse(it.next()?)?;
+    if ty == T_ANY {
+        return None;
+    }
+    let rds: Option<Vec<Rd>> = it.next()?.split('+').map(rd_parse).collect();
+    let rds = rds?;
+    if it.next().is_some() || rds.is_empty() {
+        return None;
+    }
+    // shape of the rdata per type
+    let need_target = matches!(ty, T_NS | T_CNAME | T_MX);
+    if rds.iter().any(|r| r.target.is_some() != need_target || r.tag > 250) {
+        return None;
+    }
+    Some(Rs { name, ty, rds })
+}
+
+pub fn zone_parse(s: &str) -> Option<Vec<Rs>> {
+    if s == "-" {
+        return Some(vec![]);
+    }
+    s.split(';').map(rs_parse).collect()
+}
+
+#[derive(Clone, Debug)]
+pub struct Case {
+    pub mode: char,
+    pub origin: LName,
+    pub zone: Vec<Rs>,
+    pub qname: LName, // case as sent
+    pub qtype: u16,
+    pub dnssec_ok: bool,
+}
+
+pub fn case_line(c: &Case) -> String {
+    format!(
+        "q {} {} {} {} {} {}",
+        c.mode,
+        name_txt(&c.origin),
+        zone_txt(&c.zone),
+        name_txt(&c.qname),
+        ty_name(c.qtype),
+        b(c.dnssec_ok)
+    )
+}
+
+fn case_parse(t: &[&str]) -> Option<Case> {
+    match t {
+        ["q", mode, origin, zone, qname, qtype, d] => Some(Case {
+            mode: match *mode {
+                "u" => 'u',
+                "n" => 'n',
+                "3" => '3',
+                _ => return None,
+            },
+            origin: name_parse(origin)?,
+            zone: zone_parse(zone)?,
+            qname: name_parse_case(qname)?,
+            qtype: ty_parse(qtype)?,
+            dnssec_ok: match *d {
+                "0" => false,
+                "1" => true,
+                _ => return None,
+            },
+        }),
+        _ => None,
+    }
+}
+
+// ------------------------------------------------------------------------------------------
+// the real thing
+// ------------------------------------------------------------------------------------------
+
+fn to_name(n: &LName) -> Name {
+    let mut r = Name::from_labels(n.iter().map(|l| l.as_bytes())).expect("name");
+    r.set_fqdn(true);
+    r
+}
+
+fn from_name(n: &Name) -> LName {
+    n.iter().map(|l| String::from_utf8_lossy(l).to_ascii_lowercase()).collect()
+}
+
+fn to_rdata(ty: u16, rd: &Rd, origin: &LName) -> RData {
+    let tgt = || to_name(rd.target.as_ref().expect("target"));
+    match ty {
+        T_A => RData::A(A::new(192, 0, 2, rd.tag as u8)),
+        T_AAAA => RData::AAAA(AAAA::new(0x2001, 0xdb8, 0, 0, 0, 0, 0, rd.tag as u16)),
+        T_TXT => RData::TXT(TXT::new(vec![format!("t{}", rd.tag)])),
+        T_MX => RData::MX(MX::new(rd.tag as u16, tgt())),
+        T_NS => RData::NS(NS(tgt())),
+        T_CNAME => RData::CNAME(CNAME(tgt())),
+        T_DS => RData::DNSSEC(DNSSECRData::DS(DS::new(
+            rd.tag as u16,
+            Algorithm::ED25519,
+            DigestType::SHA256,
+            vec![rd.tag as u8; 32],
+        ))),
+        T_SOA => {
+            let mut m = vec!["ns".to_string()];
+            m.extend(origin.iter().cloned());
+            let mut h = vec!["h".to_string()];
+            h.extend(origin.iter().cloned());
+            RData::SOA(SOA::new(to_name(&m), to_name(&h), 1 + rd.tag, 3600, 600, 86400, 300))
+        }
+        _ => unreachable!(),
+    }
+}
+
+/// inverse of `to_rdata` on what the server sends back (`None`: not a record of the universe)
+fn from_rdata(d: &RData) -> Option<Rd> {
+    Some(match d {
+        RData::A(a) => Rd { tag: a.0.octets()[3] as u32, target: None },
+        RData::AAAA(a) => Rd { tag: a.0.segments()[7] as u32, target: None },
+        RData::TXT(t) => {
+            let s = t.to_string();
+            Rd { tag: s.trim_matches('"').trim_start_matches('t').parse().ok()?, target: None }
+        }
+        RData::MX(m) => Rd { tag: m.preference as u32, target: Some(from_name(&m.exchange)) },
+        RData::NS(n) => Rd { tag: 0, target: Some(from_name(&n.0)) },
+        RData::CNAME(n) => Rd { tag: 0, target: Some(from_name(&n.0)) },
+        RData::DNSSEC(DNSSECRData::DS(ds)) => Rd { tag: ds.key_tag() as u32, target: None },
+        RData::SOA(_) => Rd { tag: 0, target: None },
+        _ => return None,
+    })
+}
+
+#[derive(Clone, Default)]
+struct Capture {
+    buf: Arc<Mutex<Option<Vec<u8>>>>,
+}
+
+#[async_trait::async_trait]
+impl ResponseHandler for Capture {
+    async fn send_response<'a>(
+        &mut self,
+        response: MessageResponse<
+            '_,
+            'a,
+            impl Iterator<Item = &'a Record> + Send + 'a,
+            impl Iterator<Item = &'a Record> + Send + 'a,
+            impl Iterator<Item = &'a Record> + Send + 'a,
+            impl Iterator<Item = &'a Record> + Send + 'a,
+        >,
+    ) -> Result<ResponseInfo, NetError> {
+        let mut bytes = Vec::with_capacity(512);
+        let info = {
+            let mut enc = BinEncoder::new(&mut bytes);
+            response.destructive_emit(&mut enc)?
+        };
+        *self.buf.lock().unwrap() = Some(bytes);
+        Ok(info)
+    }
+}
+
+thread_local! {
+    static RT: tokio::runtime::Runtime = tokio::runtime::Builder::new_current_thread().enable_all().build().expect("rt");
+    static KEY: Vec<u8> = Ed25519SigningKey::generate_pkcs8().expect("key").secret_pkcs8_der().to_vec();
+    /// last catalog built (most runs query one zone many times)
+    static CACHE: std::cell::RefCell<Option<(String, Option<Arc<Catalog>>)>> = const { std::cell::RefCell::new(None) };
+}
+
+/// Builds the handler from the RRsets of the case; `None` if a record was refused by `upsert_mut`
+/// or the store does not iterate in the order of the case line.
+fn build_catalog(c: &Case) -> Option<Arc<Catalog>> {
+    let key = format!("{} {} {}", c.mode, name_txt(&c.origin), zone_txt(&c.zone));
+    if let Some(hit) = CACHE.with(|k| k.borrow().as_ref().filter(|(s, _)| *s == key).map(|(_, v)| v.clone())) {
+        return hit;
+    }
+    let built = build_catalog_uncached(c);
+    CACHE.with(|k| *k.borrow_mut() = Some((key, built.clone())));
+    built
+}
+
+fn build_catalog_uncached(c: &Case) -> Option<Arc<Catalog>> {
+    let origin = to_name(&c.origin);
+    let kind = match c.mode {
+        'n' => Some(NxProofKind::Nsec),
+        '3' => Some(NxProofKind::Nsec3 {
+            algorithm: Default::default(),
+            salt: Arc::new([]),
+            iterations: 0,
+            opt_out: false,
+        }),
+        _ => None,
+    };
+    let mut h = InMemoryZoneHandler::<TokioRuntimeProvider>::empty(origin.clone(), ZoneType::Primary, AxfrPolicy::Deny, kind);
+    for rs in &c.zone {
+        for rd in &rs.rds {
+            let rec = Record::from_rdata(to_name(&rs.name), 3600, to_rdata(rs.ty, rd, &c.origin));
+            if !h.upsert_mut(rec, 1) {
+                return None;
+            }
+        }
+    }
+    // the model walks the zone in the order of the case line: it must be the store's order
+    {
+        let stored: Vec<(LName, u16)> =
+            h.records_get_mut().keys().map(|k| (from_name(&Name::from(&k.name)), u16::from(k.record_type))).collect();
+        let want: Vec<(LName, u16)> = c.zone.iter().map(|r| (r.name.clone(), r.ty)).collect();
+        if stored != want {
+            return None;
+        }
+        for (k, rs) in h.records_get_mut().iter() {
+            let _ = k;
+            let got: Vec<Option<Rd>> = rs.records_without_rrsigs().map(|r| from_rdata(&r.data)).collect();
+            let w = c.zone.iter().find(|x| x.ty == u16::from(rs.record_type()) && x.name == from_name(rs.name()))?;
+            if got != w.rds.iter().map(|r| Some(norm_rd(w.ty, r))).collect::<Vec<_>>() {
+                return None;
+            }
+        }
+    }
+    if c.mode != 'u' {
+        let der = KEY.with(|k| k.clone());
+        let key = Ed25519SigningKey::from_pkcs8(&der.into()).ok()?;
+        let signer = DnssecSigner::new(
+            DNSKEY::from_key(&key.to_public_key().ok()?),
+            Box::new(key),
+            origin.clone(),
+            std::time::Duration::from_secs(86400),
+        );
+        h.add_zone_signing_key_mut(signer).ok()?;
+        h.secure_zone_mut().ok()?;
+    }
+    let mut cat = Catalog::new();
+    cat.upsert(LowerName::new(&origin), vec![Arc::new(h) as Arc<dyn ZoneHandler>]);
+    Some(Arc::new(cat))
+}
+
+/// how an rdata of the case line reads back from the wire (NS/CNAME carry no tag, SOA none)
+fn norm_rd(ty: u16, r: &Rd) -> Rd {
+    match ty {
+        T_NS | T_CNAME | T_SOA => Rd { tag: 0, target: r.target.clone() },
+        _ => r.clone(),
+    }
+}
+
+fn query_bytes(c: &Case) -> Vec<u8> {
+    let mut m = Message::query();
+    m.metadata.id = 0x1234;
+    let mut qn = Name::from_labels(c.qname.iter().map(|l| l.as_bytes())).expect("qname");
+    qn.set_fqdn(true);
+    m.add_query(Query::new(qn, RecordType::from(c.qtype)));
+    if c.dnssec_ok {
+        let mut e = Edns::new();
+        e.set_dnssec_ok(true);
+        e.set_max_payload(4096);
+        m.set_edns(e);
+    }
+    m.to_vec().expect("encode query")
+}
+
+fn ask(cat: &Catalog, c: &Case) -> Result<Message, String> {
+    let bytes = query_bytes(c);
+    let src: SocketAddr = ([127, 0, 0, 1], 5353).into();
+    let req = Request::from_bytes(bytes, src, Protocol::Tcp).map_err(|e| format!("request: {e}"))?;
+    let cap = Capture::default();
+    RT.with(|rt| rt.block_on(cat.handle_request::<_, TokioTime>(&req, cap.clone())));
+    let out = cap.buf.lock().unwrap().take().ok_or("no response sent")?;
+    let mut d = BinDecoder::new(&out);
+    Message::read(&mut d).map_err(|e| format!("response does not decode: {e}"))
+}
+
+/// one RRset of a response section, as the canonical summary prints it
+#[derive(Clone, Debug, PartialEq, Eq, PartialOrd, Ord)]
+pub struct OutRs {
+    pub name: LName,
+    pub ty: u16,
+    /// data records: the rdatas; RRSIG: `covered.labels`; NSEC: `next:types`
+    pub rds: Vec<String>,
+}
+
+fn out_txt(v: &[OutRs]) -> String {
+    if v.is_empty() {
+        return "-".into();
+    }
+    v.iter()
+        .map(|r| format!("{}/{}/{}", name_txt(&r.name), ty_name(r.ty), r.rds.join("+")))
+        .collect::<Vec<_>>()
+        .join(";")
+}
+
+fn section(recs: &[Record]) -> Vec<OutRs> {
+    let mut out: Vec<OutRs> = vec![];
+    for r in recs {
+        let name = from_name(&r.name);
+        let ty = u16::from(r.record_type());
+        let rd = match &r.data {
+            RData::DNSSEC(DNSSECRData::RRSIG(s)) => {
+                format!("{}.{}", ty_name(u16::from(s.input().type_covered)), s.input().num_labels)
+            }
+            RData::DNSSEC(DNSSECRData::NSEC(n)) => {
+                let mut tys: Vec<u16> = n.type_bit_maps().map(u16::from).collect();
+                tys.sort();
+                format!(
+                    "{}:{}",
+                    name_txt(&from_name(n.next_domain_name())),
+                    tys.iter().map(|t| ty_name(*t)).collect::<Vec<_>>().join(",")
+                )
+            }
+            RData::DNSSEC(DNSSECRData::NSEC3(n)) => {
+                let mut tys: Vec<u16> = n.type_bit_maps().map(u16::from).collect();
+                tys.sort();
+                format!("{}:{}", hex(n.next_hashed_owner_name()), tys.iter().map(|t| ty_name(*t)).collect::<Vec<_>>().join(","))
+            }
+            d => match from_rdata(d) {
+                Some(rd) => rd_txt(&rd),
+                None => "?".into(),
+            },
+        };
+        match out.last_mut() {
+            Some(l) if l.name == name && l.ty == ty => l.rds.push(rd),
+            _ => out.push(OutRs { name, ty, rds: vec![rd] }),
+        }
+    }
+    out
+}
+
+#[derive(Clone, Debug)]
+pub struct Resp {
+    pub rcode: String,
+    pub aa: bool,
+    pub an: Vec<OutRs>,
+    pub ns: Vec<OutRs>,
+    pub ar: Vec<OutRs>,
+}
+
+fn resp_of(m: &Message) -> Resp {
+    let rc = u16::from(m.metadata.response_code);
+    Resp {
+        rcode: match rc {
+            0 => "NOERROR".into(),
+            2 => "SERVFAIL".into(),
+            3 => "NXDOMAIN".into(),
+            5 => "REFUSED".into(),
+            n => format!("RC{n}"),
+        },
+        aa: m.metadata.authoritative,
+        an: section(&m.answers),
+        ns: section(&m.authorities),
+        ar: section(&m.additionals),
+    }
+}
+
+fn resp_txt(r: &Resp) -> String {
+    format!("{} aa={} an={} ns={} ar={}", r.rcode, b(r.aa), out_txt(&r.an), out_txt(&r.ns), out_txt(&r.ar))
+}
+
+// ------------------------------------------------------------------------------------------
+// reference: RFC 1034 §4.3.2 with RFC 4592 wildcards, RFC 4035 §3.1.4.1 (DS at a cut),
+// RFC 8482 (ANY may be answered with a subset).  Written from the RFC text.
+// ------------------------------------------------------------------------------------------
+
+struct RefZone<'a> {
+    origin: &'a LName,
+    /// node → type → RRset
+    nodes: BTreeMap<LName, BTreeMap<u16, &'a Rs>>,
+}
+
+fn is_suffix(anc: &[String], n: &[String]) -> bool {
+    anc.len() <= n.len() && n[n.len() - anc.len()..] == *anc
+}
+
+impl<'a> RefZone<'a> {
+    fn new(origin: &'a LName, zone: &'a [Rs]) -> Self {
+        let mut nodes: BTreeMap<LName, BTreeMap<u16, &Rs>> = BTreeMap::new();
+        for rs in zone {
+            nodes.entry(rs.name.clone()).or_default().insert(rs.ty, rs);
+        }
+        Self { origin, nodes }
+    }
+    fn in_zone(&self, n: &[String]) -> bool {
+        is_suffix(self.origin, n)
+    }
+    /// RFC 4592 §2.2.2: a name exists if it or one of its descendants owns an RRset
+    fn exists(&self, n: &[String]) -> bool {
+        self.nodes.keys().any(|k| is_suffix(n, k))
+    }
+    fn get(&self, n: &[String], t: u16) -> Option<&'a Rs> {
+        self.nodes.get(n).and_then(|m| m.get(&t)).copied()
+    }
+    /// first zone cut met walking down from the apex towards `n` (RFC 1034 §4.3.2 step 3b)
+    fn cut(&self, n: &[String], qtype: u16, is_qname: bool) -> Option<LName> {
+        let ol = self.origin.len();
+        for k in (ol + 1)..=n.len() {
+            let anc = n[n.len() - k..].to_vec();
+            if self.get(&anc, T_NS).is_some() {
+                // the DS RRset of a delegation lives on the parent side of the cut
+                if k == n.len() && qtype == T_DS && is_qname {
+                    return None;
+                }
+                return Some(anc);
+            }
+        }
+        None
+    }
+}
+
+#[derive(Debug, Clone, PartialEq, Eq)]
+pub enum Terminal {
+    /// RRset(s) of the queried type found (owner rewritten for wildcard synthesis)
+    Data,
+    /// `ANY`: all RRsets of the node (a non-empty subset is a valid answer)
+    AnyOf(Vec<OutRs>),
+    NoData,
+    NxDomain,
+    Referral(LName),
+    /// chain left the zone or looped
+    ChainEnd,
+}
+
+#[derive(Debug, Clone)]
+pub struct Expected {
+    pub refused: bool,
+    /// CNAME chain followed by the final data RRset (if any), in order
+    pub answers: Vec<OutRs>,
+    pub terminal: Terminal,
+    /// number of CNAMEs followed
+    pub cnames: usize,
+    pub wildcard_used: bool,
+}
+
+fn out_of(rs: &Rs, owner: &LName) -> OutRs {
+    OutRs { name: owner.clone(), ty: rs.ty, rds: rs.rds.iter().map(|r| rd_txt(&norm_rd(rs.ty, r))).collect() }
+}
+
+fn reference(origin: &LName, zone: &[Rs], qname: &LName, qtype: u16) -> Expected {
+    let z = RefZone::new(origin, zone);
+    let mut exp = Expected { refused: false, answers: vec![], terminal: Terminal::NoData, cnames: 0, wildcard_used: false };
+    if !z.in_zone(qname) {
+        exp.refused = true;
+        return exp;
+    }
+    let mut cur = qname.clone();
+    let mut seen: BTreeSet<LName> = BTreeSet::new();
+    loop {
+        seen.insert(cur.clone());
+        let first = exp.cnames == 0;
+        // step 3b: referral
+        if let Some(cut) = z.cut(&cur, qtype, first) {
+            exp.terminal = Terminal::Referral(cut);
+            return exp;
+        }
+        // step 3a / 3c: the node, or the wildcard at the closest encloser
+        let (node, owner): (Option<LName>, LName) = if z.exists(&cur) {
+            (Some(cur.clone()), cur.clone())
+        } else {
+            // closest encloser: longest existing ancestor (the apex always exists)
+            let mut ce = cur[1..].to_vec();
+            while !z.exists(&ce) {
+                ce = ce[1..].to_vec();
+            }
+            let mut w = vec!["*".to_string()];
+            w.extend(ce);
+            if z.exists(&w) {
+                exp.wildcard_used = true;
+                (Some(w), cur.clone())
+            } else {
+                (None, cur.clone())
+            }
+        };
+        let Some(node) = node else {
+            exp.terminal = if first { Terminal::NxDomain } else { Terminal::ChainEnd };
+            if !first {
+                exp.terminal = Terminal::NxDomain;
+            }
+            return exp;
+        };
+        if qtype == T_ANY {
+            let all: Vec<OutRs> = z.nodes.get(&node).map(|m| m.values().map(|r| out_of(r, &owner)).collect()).unwrap_or_default();
+            exp.terminal = if all.is_empty() { Terminal::NoData } else { Terminal::AnyOf(all) };
+            return exp;
+        }
+        if let (Some(c), true) = (z.get(&node, T_CNAME), qtype != T_CNAME) {
+            exp.answers.push(out_of(c, &owner));
+            exp.cnames += 1;
+            let target = c.rds[0].target.clone().unwrap();
+            if !z.in_zone(&target) || seen.contains(&target) {
+                exp.terminal = Terminal::ChainEnd;
+                return exp;
+            }
+            cur = target;
+            continue;
+        }
+        match z.get(&node, qtype) {
+            Some(rs) => {
+                exp.answers.push(out_of(rs, &owner));
+                exp.terminal = Terminal::Data;
+            }
+            None => exp.terminal = Terminal::NoData,
+        }
+        return exp;
+    }
+}
+
+fn sorted(v: &[OutRs]) -> Vec<OutRs> {
+    let mut v: Vec<OutRs> = v
+        .iter()
+        .map(|r| {
+            let mut r = r.clone();
+            r.rds.sort();
+            r
+        })
+        .collect();
+    v.sort();
+    v
+}
+
+fn data_only(v: &[OutRs]) -> Vec<OutRs> {
+    v.iter().filter(|r| !matches!(r.ty, T_RRSIG | T_NSEC | T_NSEC3)).cloned().collect()
+}
+
+/// The property's demands on the response, clause by clause.  Returns (clause, message) pairs.
+fn check(c: &Case, exp: &Expected, r: &Resp) -> Vec<(&'static str, String)> {
+    let mut f: Vec<(&'static str, String)> = vec![];
+    let z = RefZone::new(&c.origin, &c.zone);
+    if exp.refused {
+        if r.rcode != "REFUSED" || !r.an.is_empty() {
+            f.push(("refused", format!("query outside the zone must be REFUSED without data, got {}", r.rcode)));
+        }
+        return f;
+    }
+    let an = data_only(&r.an);
+    let ns = data_only(&r.ns);
+    let soa = z.get(&c.origin, T_SOA).map(|s| out_of(s, &c.origin));
+    let apex_ns = z.get(&c.origin, T_NS).map(|s| out_of(s, &c.origin));
+    // never data from at/below a cut in the answer section (the DS of the cut excepted)
+    for rs in &an {
+        if let Some(cut) = z.cut(&rs.name, rs.ty, true) {
+            f.push(("below-cut", format!("answer section carries {} which is at/below the zone cut {}", out_txt(&[rs.clone()]), name_txt(&cut))));
+        }
+    }
+    let chain_truncated = exp.cnames >= 8 && an.len() >= 8 && an.len() < exp.answers.len() && sorted(&an) == sorted(&exp.answers[..an.len()]);
+    match &exp.terminal {
+        Terminal::Referral(cut) => {
+            let want = out_of(z.get(cut, T_NS).unwrap(), cut);
+            if r.rcode != "NOERROR" {
+                f.push(("referral", format!("referral at {} expected, rcode {}", name_txt(cut), r.rcode)));
+            }
+            if sorted(&an) != sorted(&exp.answers) {
+                f.push(("referral", format!("referral at {}: answer section must hold exactly the CNAME chain {}, got {}", name_txt(cut), out_txt(&exp.answers), out_txt(&an))));
+            }
+            let ns_other: Vec<OutRs> = ns.iter().filter(|x| x.ty != T_DS).cloned().collect();
+            if sorted(&ns_other) != sorted(&[want.clone()]) {
+                f.push(("referral", format!("referral at {}: authority must be {}, got {}", name_txt(cut), out_txt(&[want]), out_txt(&ns))));
+            }
+            if exp.cnames == 0 && r.aa {
+                f.push(("referral-aa", format!("referral at {} must not set AA", name_txt(cut))));
+            }
+        }
+        Terminal::Data | Terminal::ChainEnd => {
+            if r.rcode != "NOERROR" {
+                f.push(("answer", format!("NOERROR expected, got {}", r.rcode)));
+            }
+            if sorted(&an) != sorted(&exp.answers) && !chain_truncated {
+                f.push(("answer", format!("answer section must be {}, got {}", out_txt(&exp.answers), out_txt(&an))));
+            }
+            if !r.aa {
+                f.push(("aa", "authoritative answer without AA".into()));
+            }
+            let ok_auth = ns.is_empty() || Some(sorted(&ns)) == apex_ns.as_ref().map(|x| sorted(&[x.clone()])) || (exp.cnames > 0 && Some(sorted(&ns)) == soa.as_ref().map(|x| sorted(&[x.clone()])));
+            if !ok_auth {
+                f.push(("authority", format!("authority of a positive answer must be empty or the apex NS, got {}", out_txt(&ns))));
+            }
+        }
+        Terminal::AnyOf(all) => {
+            if r.rcode != "NOERROR" {
+                f.push(("answer", format!("NOERROR expected for ANY at a node with data, got {}", r.rcode)));
+            }
+            let all = sorted(all);
+            if an.is_empty() || !sorted(&an).iter().all(|x| all.contains(x)) {
+                f.push(("answer", format!("ANY must be answered with RRsets of the node {}, got {}", out_txt(&all), out_txt(&an))));
+            }
+            if !r.aa {
+                f.push(("aa", "authoritative answer without AA".into()));
+            }
+        }
+        Terminal::NoData | Terminal::NxDomain => {
+            let nx = exp.terminal == Terminal::NxDomain;
+            if exp.cnames == 0 {
+                let want = if nx { "NXDOMAIN" } else { "NOERROR" };
+                if r.rcode != want {
+                    f.push((if nx { "nxdomain" } else { "nodata" }, format!("{} expected, got {}", want, r.rcode)));
+                }
+                if !an.is_empty() {
+                    f.push((if nx { "nxdomain" } else { "nodata" }, format!("negative answer expected, answer section has {}", out_txt(&an))));
+                }
+                if Some(sorted(&ns)) != soa.as_ref().map(|x| sorted(&[x.clone()])) {
+                    f.push(("negative-soa", format!("negative answer must carry exactly the SOA in the authority section, got {}", out_txt(&ns))));
+                }
+            } else {
+                // after a CNAME: RFC 1034 keeps NOERROR, RFC 6604 wants the rcode of the last step
+                if !(r.rcode == "NOERROR" || (nx && r.rcode == "NXDOMAIN")) {
+                    f.push(("answer", format!("after a CNAME chain rcode must be NOERROR{}, got {}", if nx { " or NXDOMAIN" } else { "" }, r.rcode)));
+                }
+                if sorted(&an) != sorted(&exp.answers) && !chain_truncated {
+                    f.push(("answer", format!("answer section must be the CNAME chain {}, got {}", out_txt(&exp.answers), out_txt(&an))));
+                }
+                let ok_auth = ns.is_empty() || Some(sorted(&ns)) == soa.as_ref().map(|x| sorted(&[x.clone()]));
+                if !ok_auth {
+                    f.push(("authority", format!("authority after a CNAME chain must be empty or the SOA, got {}", out_txt(&ns))));
+                }
+            }
+            if !r.aa {
+                f.push(("aa", "authoritative answer without AA".into()));
+            }
+        }
+    }
+    f
+}
+
+// ------------------------------------------------------------------------------------------
+
+pub fn exec(line: &str, rec: &mut Recorder) {
+    let t: Vec<&str> = line.split_whitespace().collect();
+    let Some(c) = case_parse(&t) else {
+        rec.stat("skipped.unparsable-case");
+        return;
+    };
+    let Some(cat) = build_catalog(&c) else {
+        rec.stat("skipped.zone-not-stored-as-written");
+        return;
+    };
+    let r = catch(|| ask(&cat, &c));
+    let resp = match r {
+        Ok(Ok(m)) => resp_of(&m),
+        Ok(Err(e)) => {
+            let idx = rec.case(line.to_string(), "err".into());
+            rec.fail(idx, format!("no usable response: {e}"), "");
+            return;
+        }
+        Err(p) => {
+            let idx = rec.case(line.to_string(), format!("panic {p}"));
+            rec.fail(idx, format!("panic: {p}"), "");
+            return;
+        }
+    };
+    let idx = rec.case(line.to_string(), resp_txt(&resp));
+    let qn = lower(&c.qname);
+    let exp = reference(&c.origin, &c.zone, &qn, c.qtype);
+    rec.stat(&format!("mode.{}", c.mode));
+    rec.stat(&format!("qtype.{}", ty_name(c.qtype)));
+    rec.stat(&format!("rcode.{}", resp.rcode));
+    rec.stat(&format!(
+        "expected.{}",
+        match &exp.terminal {
+            _ if exp.refused => "refused".to_string(),
+            Terminal::Data => format!("data{}{}", if exp.cnames > 0 { "+cname" } else { "" }, if exp.wildcard_used { "+wildcard" } else { "" }),
+            Terminal::AnyOf(_) => "any".into(),
+            Terminal::NoData => format!("nodata{}{}", if exp.cnames > 0 { "+cname" } else { "" }, if exp.wildcard_used { "+wildcard" } else { "" }),
+            Terminal::NxDomain => format!("nxdomain{}", if exp.cnames > 0 { "+cname" } else { "" }),
+            Terminal::Referral(_) => format!("referral{}", if exp.cnames > 0 { "+cname" } else { "" }),
+            Terminal::ChainEnd => "cname-chain-end".into(),
+        }
+    ));
+    rec.stat(&format!("zone.rrsets.{}", (c.zone.len() / 4) * 4));
+    if !exp.refused && !(exp.terminal == Terminal::NxDomain && exp.cnames == 0 && !exp.wildcard_used && c.zone.len() <= 2) {
+        rec.nontrivial(idx);
+    }
+    let fails = check(&c, &exp, &resp);
+    for (clause, what) in fails {
+        let class = classify(&c, &exp, &resp, clause);
+        rec.stat(&format!("oracle-fail.{}", if class.is_empty() { clause } else { &class }));
+        rec.fail(idx, format!("{clause}: {what}"), &class);
+    }
+}
+
+/// known-finding class of a failing clause ("" = none).  Mirrors the decidable predicates of
+/// `Model/AuthZone.lean` / `Proofs/C10.lean`.
+fn classify(_c: &Case, _exp: &Expected, _r: &Resp, _clause: &str) -> String {
+    String::new()
+}
+
+// ------------------------------------------------------------------------------------------
+// generator
+// ------------------------------------------------------------------------------------------
+
+fn nm(s: &str) -> LName {
+    name_parse(s).expect("name literal")
+}
+
+fn rd(tag: u32) -> Rd {
+    Rd { tag, target: None }
+}
+fn rdt(tag: u32, t: &LName) -> Rd {
+    Rd { tag, target: Some(t.clone()) }
+}
+
+/// sorts RRsets into the store's order (Name::cmp, then type code) and merges duplicates
+pub fn canon_zone(mut z: Vec<Rs>) -> Vec<Rs> {
+    let mut m: BTreeMap<(LowerName, u16), Rs> = BTreeMap::new();
+    for rs in z.drain(..) {
+        let k = (LowerName::new(&to_name(&rs.name)), rs.ty);
+        match m.get_mut(&k) {
+            Some(e) => {
+                for r in rs.rds {
+                    if !e.rds.contains(&r) {
+                        e.rds.push(r)
+                    }
+                }
+            }
+            None => {
+                m.insert(k, rs);
+            }
+        }
+    }
+    let mut v: Vec<(LowerName, u16, Rs)> = m.into_iter().map(|((n, t), r)| (n, t, r)).collect();
+    v.sort_by(|a, b| a.0.cmp(&b.0).then(RecordType::from(a.1).cmp(&RecordType::from(b.1))));
+    v.into_iter().map(|x| x.2).collect()
+}
+
+fn under(prefix: &[&str], origin: &LName) -> LName {
+    let mut v: Vec<String> = prefix.iter().map(|s| s.to_string()).collect();
+    v.extend(origin.iter().cloned());
+    v
+}
+
+fn gen_zone(r: &mut Rng, origin: &LName) -> Vec<Rs> {
+    let labels = ["a", "b", "c", "*", "ns", "w"];
+    let mut z: Vec<Rs> = vec![];
+    z.push(Rs { name: origin.clone(), ty: T_SOA, rds: vec![rd(0)] });
+    let nsn = under(&["ns"], origin);
+    let mut apex_ns = vec![rdt(0, &nsn)];
+    if r.chance(1, 3) {
+        apex_ns.push(rdt(0, &nm("ns.other.")));
+    }
+    z.push(Rs { name: origin.clone(), ty: T_NS, rds: apex_ns });
+    if r.chance(2, 3) {
+        z.push(Rs { name: nsn.clone(), ty: T_A, rds: vec![rd(53)] });
+    }
+    // owner names: depth 1..3 under the origin
+    let n_owners = r.range(1, 7);
+    let mut owners: Vec<LName> = vec![];
+    for _ in 0..n_owners {
+        let depth = *r.pick(&[1usize, 1, 1, 2, 2, 3]);
+        let mut pre: Vec<&str> = vec![];
+        for i in 0..depth {
+            let l = if i == 0 { *r.pick(&labels) } else { *r.pick(&["a", "b", "c", "*"]) };
+            pre.push(l);
+        }
+        owners.push(under(&pre, origin));
+    }
+    let target = |r: &mut Rng, owners: &Vec<LName>| -> LName {
+        match r.below(8) {
+            0 => nm("host.other."),
+            1 => under(&["nx"], origin),
+            2 => under(&["x", "a"], origin),
+            3 => origin.clone(),
+            _ => r.pick(owners).clone(),
+        }
+    };
+    for o in owners.clone() {
+        match r.below(12) {
+            0 | 1 => z.push(Rs { name: o.clone(), ty: T_A, rds: vec![rd(1)] }),
+            2 => {
+                z.push(Rs { name: o.clone(), ty: T_A, rds: vec![rd(1), rd(2)] });
+                z.push(Rs { name: o.clone(), ty: T_AAAA, rds: vec![rd(1)] });
+            }
+            3 => z.push(Rs { name: o.clone(), ty: T_TXT, rds: vec![rd(7)] }),
+            4 => {
+                let t = target(r, &owners);
+                z.push(Rs { name: o.clone(), ty: T_MX, rds: vec![rdt(10, &t)] });
+                if r.chance(1, 2) {
+                    z.push(Rs { name: o.clone(), ty: T_TXT, rds: vec![rd(3)] });
+                }
+            }
+            5 | 6 | 7 => {
+                let t = target(r, &owners);
+                z.push(Rs { name: o.clone(), ty: T_CNAME, rds: vec![rdt(0, &t)] });
+            }
+            8 | 9 | 10 => {
+                // delegation, with or without glue / DS
+                let inside = r.chance(1, 2);
+                let mut g = vec!["ns".to_string()];
+                g.extend(o.iter().cloned());
+                let t = if inside { g.clone() } else { nm("ns.other.") };
+                z.push(Rs { name: o.clone(), ty: T_NS, rds: vec![rdt(0, &t)] });
+                if inside && r.chance(2, 3) {
+                    z.push(Rs { name: g, ty: T_A, rds: vec![rd(9)] });
+                }
+                if r.chance(1, 3) {
+                    z.push(Rs { name: o.clone(), ty: T_DS, rds: vec![rd(11)] });
+                }
+                if r.chance(1, 4) {
+                    // occluded data below the cut
+                    let mut occ = vec!["a".to_string()];
+                    occ.extend(o.iter().cloned());
+                    z.push(Rs { name: occ, ty: T_A, rds: vec![rd(66)] });
+                }
+            }
+            _ => z.push(Rs { name: o.clone(), ty: *r.pick(&[T_AAAA, T_TXT, T_MX, T_A]), rds: vec![rd(5)] }),
+        }
+    }
+    // MX needs a target
+    for rs in z.iter_mut() {
+        if rs.ty == T_MX {
+            for x in rs.rds.iter_mut() {
+                if x.target.is_none() {
+                    x.target = Some(origin.clone());
+                }
+            }
+        }
+    }
+    canon_zone(z)
+}
+
+fn gen_qnames(r: &mut Rng, origin: &LName, zone: &[Rs]) -> Vec<LName> {
+    let mut q: BTreeSet<LName> = BTreeSet::new();
+    q.insert(origin.clone());
+    for rs in zone {
+        q.insert(rs.name.clone());
+        // parents (ENTs) and children
+        let mut p = rs.name.clone();
+        while p.len() > origin.len() {
+            p = p[1..].to_vec();
+            q.insert(p.clone());
+        }
+        for l in ["a", "x", "*"] {
+            let mut c = vec![l.to_string()];
+            c.extend(rs.name.iter().cloned());
+            q.insert(c);
+        }
+        for rd in &rs.rds {
+            if let Some(t) = &rd.target {
+                q.insert(t.clone());
+            }
+        }
+    }
+    q.insert(under(&["x", "y"], origin));
+    q.insert(nm("other."));
+    q.insert(vec![]);
+    let mut v: Vec<LName> = q.into_iter().collect();
+    // deterministic shuffle
+    for i in (1..v.len()).rev() {
+        let j = r.below(i as u64 + 1) as usize;
+        v.swap(i, j);
+    }
+    v
+}
+
+pub fn run(o: &Opts, rec: &mut Recorder) {
+    rec.rule = "zones over a small name universe (apex SOA+NS, hosts, ENTs, wildcards at depth 1-3, CNAME chains / loops / out-of-zone targets, delegations with and without glue, DS at cuts, occluded data below cuts) x qnames in and around the zone x {A,AAAA,MX,NS,CNAME,SOA,DS,TXT,ANY}; a case is non-trivial unless the query is outside the zone or a plain NXDOMAIN in an apex-only zone; distinct by case line".into();
+    for l in o.pre_lines.clone() {
+        exec(&l, rec);
+    }
+    rec.corpus_cases = rec.cases.len();
+    if o.replay_only {
+        return;
+    }
+    let mut r = Rng::new(o.seed);
+    let origin = nm("example.");
+    let zones = o.n(150, 3000);
+    for _ in 0..zones {
+        let z = gen_zone(&mut r, &origin);
+        let qs = gen_qnames(&mut r, &origin, &z);
+        for (i, qn) in qs.iter().enumerate() {
+            if i >= 14 {
+                break;
+            }
+            for qt in QTYPES {
+                if !r.chance(1, 2) && i >= 4 {
+                    continue;
+                }
+                let mut qn = qn.clone();
+                if r.chance(1, 10) {
+                    qn = qn.iter().map(|l| l.to_ascii_uppercase()).collect();
+                }
+                let c = Case { mode: 'u', origin: origin.clone(), zone: z.clone(), qname: qn, qtype: qt, dnssec_ok: r.chance(1, 8) };
+                exec(&case_line(&c), rec);
+            }
+        }
+    }
 }
